@@ -410,6 +410,11 @@ func catchGeneratedDataset(p *prng) (metaPath string, cleanup func(), desc J) {
 			// activation (round(+c)) and deactivation (round(-c)) must round symmetrically
 			c = float64(int64(c)) + []float64{0.125, 0.375, 0.625, 0.875}[p.intn(4)]
 		}
+		if p.chance(0.1) {
+			// exactly one or two steps of the variable's last printed place (costs carry two decimals): the smallest
+			// change an action can make to a cost variable is still a change
+			c = []float64{0.01, 0.02, 0.01, 0.1}[p.intn(4)]
+		}
 		if p.chance(0.12) {
 			c = -c // the loader accepts a negative cost (a subsidy / a gain): shares and totals may go negative
 		}
